@@ -292,6 +292,18 @@ impl Report {
                     e.1 = v.clone();
                 }
             }
+            if std::env::var("VERIF_CLASSES").as_deref() == Ok("all") {
+                // one line per distinct (class, trigger) shape, shortest first
+                let mut shapes: BTreeMap<(String, Vec<String>), &Violation> = BTreeMap::new();
+                for v in &vs {
+                    shapes.entry((v.class.clone(), v.kinds.clone())).or_insert(v);
+                }
+                let mut list: Vec<_> = shapes.into_iter().collect();
+                list.sort_by_key(|((c, k), _)| (c.clone(), k.len()));
+                for ((c, k), v) in list.iter().take(200) {
+                    println!("SHAPE {c} :: {} :: {}", k.join(","), truncate(&v.detail, 160));
+                }
+            }
             for (c, (n, v)) in &by_class {
                 let k = known.iter().any(|k| k.matches(v));
                 println!("CLASS {c} cases={n} known={k} shortest={} :: {}", v.kinds.join(","), truncate(&v.detail, 200));
